@@ -627,6 +627,74 @@ def kleinUniformRej [NumPow α] (R : Rng α) (fuel : Nat) (p : Pos) : RejRes × 
   | .threw j => (.threw j, none)
   | .exhausted => (.exhausted, none)
 
+/-! ### deterministic samplers (samplers/DeterministicStateSampler.cpp, deterministic/HaltonSequence.cpp) -/
+
+/-- `HaltonSequence1D::sample()`: `f = 1, r = 0; while (i > 0) { f /= base; r += f * (i % base); i = floor(i / base); }`
+(`i` is an `unsigned int`: at most 32 iterations for `base ≥ 2`; the fuel is 33) -/
+def haltonLoop (b : Nat) : Nat → Nat → α → α → α
+  | 0, _, _, r => r
+  | fuel + 1, i, f, r =>
+    if i = 0 then r
+    else
+      let f' := f / Num.ofNat b
+      haltonLoop b fuel (i / b) f' (r + f' * Num.ofNat (i % b))
+
+def halton1D (b i : Nat) : α := haltonLoop b 33 i (Num.ofNat 1) (Num.ofNat 0)
+
+/-- `boost::math::prime(k)`, first entries (`HaltonSequence::setBasesToPrimes`) -/
+def primeTable : List Nat := [2, 3, 5, 7, 11, 13, 17, 19, 23, 29, 31, 37, 41, 43, 47, 53]
+
+/-- the `n`-th point (0-based) of `HaltonSequence(dim)`: every 1-D sequence starts at `i_ = 1` -/
+def haltonPoint (dim n : Nat) : List α :=
+  (List.range dim).map (fun k => halton1D (primeTable.getD k 2) (n + 1))
+
+/-- SO2DeterministicStateSampler::sampleUniform: `-pi + sample[0] * 2 * pi` -/
+def detSO2 (s : α) : α := -Num.pi + s * Num.ofNat 2 * Num.pi
+
+/-- RealVectorDeterministicStateSampler::sampleUniform (stretch): `low[i] + sample[i] * (high[i] - low[i])` -/
+def detRv : List α → List α → List α → List α
+  | l :: lo, h :: hi, x :: xs => (l + x * (h - l)) :: detRv lo hi xs
+  | _, _, _ => []
+
+/-! ### PrecomputedStateSampler (PrecomputedStateSampler.cpp) on R^n -/
+
+/-- `RealVectorStateSpace::distance`: `sqrt(Σ diff²)`, accumulated in index order -/
+def rvDistSq : List α → List α → α → α
+  | a :: as, b :: bs, acc => rvDistSq as bs (acc + (a - b) * (a - b))
+  | _, _, acc => acc
+
+/-- `RealVectorStateSpace::interpolate`: `from + (to - from) * t` -/
+def rvInterp (t : α) : List α → List α → List α
+  | a :: as, b :: bs => (a + (b - a) * t) :: rvInterp t as bs
+  | _, _ => []
+
+/-- `sampleUniformNear(state, near, distance)` once the index draw picked the stored state `s`:
+`dist = distance(near, s); if (dist > distance) interpolate(near, s, distance / dist, state) else copy s` -/
+def preNearRv (near s : List α) (distance : α) : List α :=
+  let dist := Num.sqrt (rvDistSq near s (Num.ofNat 0))
+  if distance < dist then rvInterp (distance / dist) near s else s
+
+/-- `sampleGaussian(state, mean, stdDev)` AS CODED: `sampleUniformNear(state, mean, rng_.gaussian(0.0, stdDev))` — the
+"distance" is a SIGNED Gaussian draw (finding F166) -/
+def preGaussRv (mean s : List α) (sd g : α) : List α := preNearRv mean s (gaussian (Num.ofNat 0) sd g)
+
+/-! ### RNG::halfNormalReal / halfNormalInt (RandomNumbers.cpp) -/
+
+/-- `mean = r_max - r_min; v = gaussian(mean, mean / focus); if (v > mean) v = 2.0 * mean - v;
+r = v >= 0.0 ? v + r_min : r_min; return r > r_max ? r_max : r;` -/
+def halfNormalReal (rmin rmax focus g : α) : α :=
+  let mean := rmax - rmin
+  let v := gaussian mean (mean / focus) g
+  let v := if mean < v then Num.ofNat 2 * mean - v else v
+  let r := if Num.ofNat 0 ≤ v then v + rmin else rmin
+  if rmax < r then rmax else r
+
+/-- `r = (int)floor(halfNormalReal(r_min, r_max + 1.0, focus)); return (r > r_max) ? r_max : r;` — cast BEFORE the clamp as
+coded (finding F167 for `r_max = INT_MAX`; with the model's unbounded `Int` the order does not matter) -/
+def halfNormalInt (rmin rmax : Int) (focus g : α) : Int :=
+  let r := Num.toInt (Num.floor (halfNormalReal (Num.ofInt rmin) (Num.ofInt rmax + Num.ofNat 1) focus g))
+  if rmax < r then rmax else r
+
 /-! ### valid-state samplers over an oracle (no arithmetic on states) -/
 section Valid
 variable {σ κ : Type}
